@@ -30,6 +30,10 @@ Proof. unfold fupd. rewrite Nat.eqb_refl. reflexivity. Qed.
 Lemma fupd_other {A} (f : nat -> A) k v x : x <> k -> fupd f k v x = f x.
 Proof. intros N. unfold fupd. destruct (Nat.eqb_spec x k); [contradiction|reflexivity]. Qed.
 
+Lemma after_lookup_pc th :
+  locked_pc (pc (th_after_lookup th)) = false /\ pc (th_after_lookup th) <> F2 /\ pc (th_after_lookup th) <> L2.
+Proof. unfold th_after_lookup. destruct (arg th =? 0); cbn; repeat split; discriminate. Qed.
+
 Lemma rc_le_linc s : Body s -> forall g, rcs s g <= linc s.
 Proof.
   intros B g. destruct (N.eq_dec (rcs s g) 0) as [Z|Z]; [lia|].
@@ -58,7 +62,7 @@ Proof.
   unfold tstep in H. remember (thr s t) as th eqn:TH.
   destruct (pc th) eqn:PC.
   - (* PIdle *)
-    destruct (prog th) as [|[|n] r]; [discriminate| |]; inversion H; subst s'; clear H;
+    destruct (prog th) as [|[|n|d] r]; [discriminate| | |]; inversion H; subst s'; clear H;
       constructor; cbn; auto; intros x; thr_cases t x; cbn; auto; try discriminate;
       try (intros X; apply C in X; exact X); try (intros X; apply F in X; exact X); try (intros X; apply G in X; exact X).
   - (* L0 *)
@@ -81,9 +85,9 @@ Proof.
       * unfold rc_now in *. cbn. rewrite CU in *. rewrite fupd_same. rewrite MN. lia.
       * lia.
       * exact J.
-      * intros x; thr_cases t x; cbn; [discriminate|apply C].
-      * intros x; thr_cases t x; cbn; [discriminate|apply F].
-      * intros x; thr_cases t x; cbn; [discriminate|apply G].
+      * intros x; thr_cases t x; [destruct (after_lookup_pc th) as (P1 & P2 & P3); intros X; first [congruence|rewrite P1 in X; discriminate]|cbn; apply C].
+      * intros x; thr_cases t x; [destruct (after_lookup_pc th) as (P1 & P2 & P3); intros X; first [congruence|rewrite P1 in X; discriminate]|cbn; apply F].
+      * intros x; thr_cases t x; [destruct (after_lookup_pc th) as (P1 & P2 & P3); intros X; first [congruence|rewrite P1 in X; discriminate]|cbn; apply G].
     + inversion H; subst s'; clear H.
       constructor; cbn; auto; intros x; thr_cases t x; cbn; auto; try discriminate.
   - (* L3 *)
@@ -104,9 +108,9 @@ Proof.
       * unfold rc_now in *. cbn. rewrite CU in *. rewrite fupd_same, WR. lia.
       * lia.
       * exact J.
-      * intros x; thr_cases t x; cbn; [discriminate|]. intros X. exfalso. eapply NOLOCK; eauto.
-      * intros x; thr_cases t x; cbn; [discriminate|]. intros X. exfalso. eapply (NOLOCK x); eauto. rewrite X. reflexivity.
-      * intros x; thr_cases t x; cbn; [discriminate|apply G].
+      * intros x; thr_cases t x; [destruct (after_lookup_pc th) as (P1 & P2 & P3); intros X; first [congruence|rewrite P1 in X; discriminate]|cbn; idtac]. intros X. exfalso. eapply NOLOCK; eauto.
+      * intros x; thr_cases t x; [destruct (after_lookup_pc th) as (P1 & P2 & P3); intros X; first [congruence|rewrite P1 in X; discriminate]|cbn; idtac]. intros X. exfalso. eapply (NOLOCK x); eauto. rewrite X. reflexivity.
+      * intros x; thr_cases t x; [destruct (after_lookup_pc th) as (P1 & P2 & P3); intros X; first [congruence|rewrite P1 in X; discriminate]|cbn; apply G].
     + assert (ALLZ : forall g, rcs s g = 0).
       { intros g. destruct (N.eq_dec (rcs s g) 0) as [Z|Z]; [exact Z|]. apply A in Z. congruence. }
       constructor; cbn.
@@ -114,9 +118,9 @@ Proof.
       * unfold rc_now in *. cbn. rewrite CU in *. rewrite fupd_same. lia.
       * lia.
       * exact J.
-      * intros x; thr_cases t x; cbn; [discriminate|]. intros X. exfalso. eapply NOLOCK; eauto.
-      * intros x; thr_cases t x; cbn; [discriminate|]. intros X. exfalso. eapply (NOLOCK x); eauto. rewrite X. reflexivity.
-      * intros x; thr_cases t x; cbn; [discriminate|apply G].
+      * intros x; thr_cases t x; [destruct (after_lookup_pc th) as (P1 & P2 & P3); intros X; first [congruence|rewrite P1 in X; discriminate]|cbn; idtac]. intros X. exfalso. eapply NOLOCK; eauto.
+      * intros x; thr_cases t x; [destruct (after_lookup_pc th) as (P1 & P2 & P3); intros X; first [congruence|rewrite P1 in X; discriminate]|cbn; idtac]. intros X. exfalso. eapply (NOLOCK x); eauto. rewrite X. reflexivity.
+      * intros x; thr_cases t x; [destruct (after_lookup_pc th) as (P1 & P2 & P3); intros X; first [congruence|rewrite P1 in X; discriminate]|cbn; apply G].
   - (* F0 *)
     destruct (is_none_nat (wl s)) eqn:WL; [|discriminate].
     assert (WN : wl s = None) by (destruct (wl s); [discriminate|reflexivity]).
@@ -157,6 +161,12 @@ Proof.
       * intros x; thr_cases t x; cbn; [discriminate|apply G].
     + inversion H; subst s'; clear H.
       constructor; cbn; auto; intros x; thr_cases t x; cbn; auto; try discriminate.
+  - (* U0 *)
+    destruct (is_none_nat (wl s)) eqn:WL; [|discriminate].
+    assert (WN : wl s = None) by (destruct (wl s); [discriminate|reflexivity]).
+    inversion H; subst s'; clear H.
+    constructor; cbn; auto; intros x; thr_cases t x; cbn; auto; try discriminate.
+    intros X. apply C in X. congruence.
 Qed.
 
 Theorem step_inv s s' : Inv s -> cstep s s' -> Inv s'.
@@ -245,6 +255,26 @@ Lemma ex_retry :
   match run_sched (cinit 1 ex_progs) ex_retry_sched with
   | Some (tr, s) => tr = [0; 1; 2; 4; 5; 9; 5; 9] /\ rc_now s = 1 /\ ngen s = 1%nat /\
                     ldone s = 1 /\ fnom s = 1 /\ fdec s = 1
+  | None => False
+  end.
+Proof. vm_compute. intuition reflexivity. Qed.
+
+(* a READDIRPLUS entry that does not fit: the reference is taken and given back; racing with the client's
+   forget of its one reference (the forget removes the object between the lookup's probe and its load: the lookup retries, inserts a new object, and the undo removes it again) *)
+Definition ex_rdp_progs : nat -> list cop := fun t => match t with O => [CRdp false] | S O => [CForget 1] | _ => [] end.
+Definition ex_rdp_sched : list nat := [0; 0; 1; 1; 1; 0; 0; 0; 0]%nat.
+Lemma ex_rdp :
+  match run_sched (cinit 1 ex_rdp_progs) ex_rdp_sched with
+  | Some (tr, s) => tr = [0; 1; 4; 5; 9; 0; 3; 5; 9] /\ rc_now s = 0 /\ cur s = None /\ ngen s = 2%nat /\
+                    ldone s = 1 /\ fnom s = 2 /\ fdec s = 2
+  | None => False
+  end.
+Proof. vm_compute. intuition reflexivity. Qed.
+(* delivered entry: one more reference, exactly like a lookup *)
+Definition ex_rdp2_progs : nat -> list cop := fun t => match t with O => [CRdp true] | S O => [CForget 1] | _ => [] end.
+Lemma ex_rdp2 :
+  match run_sched (cinit 1 ex_rdp2_progs) [0; 1; 1; 1; 0; 0]%nat with
+  | Some (tr, s) => tr = [0; 4; 5; 9; 3; 9] /\ rc_now s = 1 /\ ngen s = 2%nat /\ ldone s = 1 /\ fdec s = 1
   | None => False
   end.
 Proof. vm_compute. intuition reflexivity. Qed.
